@@ -2,7 +2,7 @@
 
 from hypothesis import strategies as st
 
-from asynciojobs import Sequence
+from asynciojobs import Sequence, Job, PrintJob
 
 from ..campaign import Result
 from ..structural import SJob, SSched, SPure, quiet, STRUCT_ASSUMPTIONS
@@ -79,6 +79,28 @@ def jsonable(x):
     if isinstance(x, (list, tuple)):
         return [jsonable(i) for i in x]
     return x
+
+
+async def _noop():
+    return None
+
+
+class HJob(Job):
+    def __init__(self, hkey, *args, **kw):
+        self.v_hkey = hkey          # before the constructor may add us to a scheduler's set
+        Job.__init__(self, *args, **kw)
+
+    def __hash__(self):
+        return self.v_hkey
+
+
+class HPrintJob(PrintJob):
+    def __init__(self, hkey, *args, **kw):
+        self.v_hkey = hkey
+        PrintJob.__init__(self, *args, **kw)
+
+    def __hash__(self):
+        return self.v_hkey
 
 
 class World:
@@ -237,8 +259,18 @@ def run_program(case, res):
                     if s is not None and not w.may_join(s, [new]):
                         s = None
                     targets = w.model_targets(a)
-                    job = SJob('j%d' % new, hkey=(new * 5) % 16, required=w.real(a),
-                               scheduler=None if s is None else w.scheds[s])
+                    # the library's own job classes take required= / scheduler= as well
+                    cls_kind = (len(w.jobs) + len(case['program'])) % 4
+                    kw = dict(required=w.real(a),
+                              scheduler=None if s is None else w.scheds[s])
+                    hkey = (new * 5) % 16
+                    if cls_kind == 2:
+                        job = HJob(hkey, _noop(), label='j%d' % new, **kw)
+                    elif cls_kind == 3:
+                        job = HPrintJob(hkey, 'j%d' % new, label='j%d' % new, **kw)
+                    else:
+                        job = SJob('j%d' % new, hkey=hkey, **kw)
+                    job.v_id = 'j%d' % new
                     w.jobs.append(job)
                     w.m_req.append(set())
                     w.m_require(new, targets)
